@@ -99,35 +99,52 @@ func explain(marker string, atoms []atom, extras []string, fromTop bool, want bo
 	}
 	yes := "python_version === '" + env["python_version"] + "'"
 	no := "python_version === '" + env["python_version"] + "x'"
-	first := -1 // lowest index of a recorded shape present in the marker
-	rewritten := marker
-	// Right to left so that earlier offsets stay valid.
-	for i := len(atoms) - 1; i >= 0; i-- {
-		a := atoms[i]
-		lv, ok1 := val(a.L)
-		rv, ok2 := val(a.R)
-		if !ok1 || !ok2 {
-			continue
-		}
-		for si, sh := range shapes {
-			if is, truth := sh.match(a, lv, rv, vi); is {
-				rep := no
-				if truth {
-					rep = yes
+	// rewrite replaces the atoms of the recorded shapes selected by only (all
+	// when only < 0) with atoms of known truth, and reports the lowest index of
+	// a shape it replaced.
+	rewrite := func(only int) (string, int) {
+		first := -1
+		rewritten := marker
+		// Right to left so that earlier offsets stay valid.
+		for i := len(atoms) - 1; i >= 0; i-- {
+			a := atoms[i]
+			lv, ok1 := val(a.L)
+			rv, ok2 := val(a.R)
+			if !ok1 || !ok2 {
+				continue
+			}
+			for si, sh := range shapes {
+				if is, truth := sh.match(a, lv, rv, vi); is {
+					if only >= 0 && si != only {
+						break
+					}
+					rep := no
+					if truth {
+						rep = yes
+					}
+					rewritten = rewritten[:a.Start] + rep + rewritten[a.End:]
+					if first < 0 || si < first {
+						first = si
+					}
+					break
 				}
-				rewritten = rewritten[:a.Start] + rep + rewritten[a.End:]
-				if first < 0 || si < first {
-					first = si
-				}
-				break
 			}
 		}
+		return rewritten, first
 	}
-	if first < 0 {
-		return ""
+	agrees := func(m string) bool {
+		o := resolveMarker(m, extras, fromTop)
+		return o.Err == "" && o.Panic == "" && !o.Budget && o.Shape == "" && o.Edge == want
 	}
-	o := resolveMarker(rewritten, extras, fromTop)
-	if o.Err != "" || o.Panic != "" || o.Budget || o.Shape != "" || o.Edge != want {
+	// One shape alone is responsible when rewriting only its atoms is enough
+	// (another recorded shape may be present without being the cause).
+	for si := range shapes {
+		if m, first := rewrite(si); first == si && agrees(m) {
+			return shapes[si].class
+		}
+	}
+	m, first := rewrite(-1)
+	if first < 0 || !agrees(m) {
 		return ""
 	}
 	return shapes[first].class
